@@ -14,7 +14,7 @@ EXHAUSTIVE = {"fault position: every line of the sampled good files": True}
 
 
 def generate(R, tier):
-    n = 400 if tier == "quick" else 5000
+    n = 400 if tier == "quick" else 25000
     for i in range(n):
         A = D.valid_file(R, small=True)
         B = D.valid_file(R, small=True)
